@@ -289,6 +289,15 @@ def observe(v, sid, nodes, mode, names, conforming, want, lines=None, xec=False)
         e["lines_nofg"] = [cps(x) for x in m2.to_er7().split("\r")]
     except Exception as ex:
         e["out_nofg"] = exc_name(ex)
+    if want == "C08":
+        e["tree_val"], e["out_val"] = [], "ok"
+        try:
+            from hl7apy.core import Message
+            m3 = Message()
+            m3.value = text
+            e["tree_val"] = project_tree(m3)
+        except Exception as ex:
+            e["out_val"] = exc_name(ex)
     return e
 
 
